@@ -344,6 +344,77 @@ def run_fleet(case, o: Oracle) -> None:
     o.sample({"fleet_processes": n, "ops": ops, "sequential": sequential})
 
 
+# ------------------------------------------------------------------ workers forked from one parent
+_FORK_OPS = ["sb21_default", "adv_params", "mbi_class", "otfad_blob", "iee_ctr", "bee_kib", "bee_prdb", "hab_nonce"]
+
+
+def run_fork(case, o: Oracle) -> None:
+    """A parent that has already built something forks n workers (multiprocessing's default start method on Linux, os.fork in a
+    build server); each worker builds the same kinds of artifacts.  Workers are different processes: no two of them, and none
+    of them and the parent, may share a self-chosen value."""
+    import json
+
+    n = int(case["n"])
+    env = {"workdir": os.path.join(_STATE.get("scratch", "."), "c17-fork-%d-%d" % (os.getpid(), case.get("round", 0)))}
+    results = []
+    parent: dict = {}
+    for idx, op in enumerate(_FORK_OPS[: 1 + case.get("round", 0) % 3]):  # the parent draws one to three values before it forks
+        with o.spsdk("construct", op):
+            for kind, val in _do(op, idx, env).items():
+                parent.setdefault(kind, []).append(bytes(val).hex())
+    results.append(parent)
+    children = []
+    for _ in range(n):
+        r, w = os.pipe()
+        pid = os.fork()
+        if pid == 0:  # worker: build, report through the pipe, leave without running the parent's exit handlers
+            code = 1
+            try:
+                os.close(r)
+                out: dict = {}
+                for idx, op in enumerate(_FORK_OPS):
+                    for kind, val in _do(op, idx, {"workdir": env["workdir"] + "-%d" % os.getpid()}).items():
+                        out.setdefault(kind, []).append(bytes(val).hex())
+                os.write(w, json.dumps(out).encode())
+                code = 0
+            finally:
+                os._exit(code)
+        os.close(w)
+        children.append((pid, r))
+    for pid, r in children:
+        data = b""
+        while True:
+            chunk = os.read(r, 65536)
+            if not chunk:
+                break
+            data += chunk
+        os.close(r)
+        _, status = os.waitpid(pid, 0)
+        if status != 0 or not data:
+            o.fail("construct", "fork_child_failed", "worker %d ended with status %d" % (pid, status))
+            continue
+        results.append(json.loads(data))
+    seen: dict = {}
+    for pi, res in enumerate(results):
+        for kind, vals in res.items():
+            for v in vals:
+                prev = seen.setdefault(kind, {}).get(v)
+                if prev is not None:
+                    who = lambda k: "the parent" if k == 0 else "forked worker %d" % k  # noqa: E731
+                    o.fail("fresh", "reused_across_forked_processes:%s" % kind, "%s and %s share %s = %s" % (who(prev), who(pi), kind, v))
+                seen[kind][v] = pi
+    import glob as _glob
+    import shutil
+
+    for d in _glob.glob(env["workdir"] + "*"):
+        shutil.rmtree(d, ignore_errors=True)
+    o.label("fleet", "fleet:forked", "repeat_kind")
+    o.count(len(results), len(results))
+    o.nontrivial(len(results) >= 3)
+    o.key(("fork", n, case.get("round", 0)))
+    o.sample({"forked_workers": n, "parent_ops_before_fork": _FORK_OPS[: 1 + case.get("round", 0) % 3], "worker_ops": _FORK_OPS})
+
+
 _FLEET_OPS = [["sb20_default", "sb21_default", "mbi_class", "otfad_export", "iee_xts", "bee_header", "hab_nonce", "sb21_cfg_fresh"],
               ["sb21_explicit", "adv_params", "mbi_config", "iee_ctr", "bee_prdb", "bee_kib", "hab_dek_128", "hab_dek_256"]]
 
@@ -355,4 +426,6 @@ def parts(ctx):
         EnumPart("fleet", lambda tier: 4 if tier == "quick" else 12,
                  lambda tier, i: {"ops": _FLEET_OPS[i % 2], "n": (4 if tier == "quick" else 8) if i < 2 else 3, "round": i, "sequential": i % 4 >= 2},
                  run_fleet, exhaustive=False, max_shards=4),
+        EnumPart("fork_fleet", lambda tier: 3 if tier == "quick" else 12, lambda tier, i: {"n": 2 + i % 3, "round": i}, run_fork,
+                 exhaustive=False, max_shards=3),
     ]
